@@ -288,10 +288,12 @@ class Deextract:
                 out.append(s)
                 continue
             # a new helper called inside a larger expression of a simple statement: hoist it into `tmp = helper(..)` first
-            if isinstance(s, (ast.Expr, ast.Assign, ast.AugAssign, ast.AnnAssign, ast.Return)):
+            if isinstance(s, (ast.Expr, ast.Assign, ast.AugAssign, ast.AnnAssign, ast.Return, ast.If)):
                 top, _, _ = self.site(s)
                 hoisted = []
-                for c in [c for c in ast.walk(s) if isinstance(c, ast.Call) and c is not top]:
+                # for an `if`, only its condition is looked at (the arms are rewritten recursively below)
+                scope_ = ast.walk(s.test) if isinstance(s, ast.If) else ast.walk(s)
+                for c in [c for c in scope_ if isinstance(c, ast.Call) and c is not top]:
                     q, recv = self.resolve(c, caller_q)
                     if q is None or q == caller_q or not self.inlinable(q, c, "assign"):
                         continue
@@ -307,7 +309,10 @@ class Deextract:
                                     return ast.copy_location(ast.Name(id=tname, ctx=ast.Load()), node)
                             return self_.generic_visit(node)
                     pre = [ast.copy_location(ast.Assign(targets=[ast.Name(id=tname, ctx=ast.Store())], value=c), s) for c, tname in hoisted]
-                    s = _Rep().visit(s)
+                    if isinstance(s, ast.If):
+                        s.test = _Rep().visit(s.test)
+                    else:
+                        s = _Rep().visit(s)
                     out.extend(self.rewrite_block(pre, caller_q, depth))
             call, ctx, target = self.site(s)
             if call is not None:
